@@ -7,6 +7,10 @@ Stack (bottom -> top), built like YowStackBuilder.getDefaultLayers without the c
 
 A history is a list of ops (JSON-able lists):
   ["app", kind, hs, he]        application request through YowInterfaceLayer._sendIq
+  ["app", kind, hs, he, rs, re, budget]   the same, with callbacks that RETRY: when invoked, the
+                               success (if rs) / error (if re) callback re-issues the original
+                               request entity (same id) through _sendIq from inside the callback,
+                               at most `budget` times in total
   ["lib", lkind]               library-internal request through the issuing layer's own entry point
   ["dlv", mid, typ, shape]     incoming iq with (model) id `mid`, type result/error/get/set
   ["oth", tag, mid]            incoming non-iq stanza carrying id `mid`
@@ -274,17 +278,23 @@ class Rig(object):
         return self.proto.get(cls)
 
     # ---- ops
-    def app_request(self, kind, hs, he):
+    def app_request(self, kind, hs, he, rs=0, re=0, budget=0):
         ent = mk_request(kind)
         rid = ent.getId()
+        left = [int(budget)]
 
-        def ok(reply, orig, _ent=ent, _rid=rid):
-            self.log.append(("appcb", reply.getId(), "success", _rid if orig is _ent else None,
-                             reply.getType()))
+        def fired(which, retries, reply, orig):
+            self.log.append(("appcb", reply.getId(), which, rid if orig is ent else None, reply.getType()))
+            if retries and left[0] > 0:
+                left[0] -= 1
+                # the usual retry pattern: send the request handed to the callback again
+                self.app._sendIq(orig, ok if hs else None, err if he else None)
 
-        def err(reply, orig, _ent=ent, _rid=rid):
-            self.log.append(("appcb", reply.getId(), "error", _rid if orig is _ent else None,
-                             reply.getType()))
+        def ok(reply, orig):
+            fired("success", rs, reply, orig)
+
+        def err(reply, orig):
+            fired("error", re, reply, orig)
         self.requests[rid] = ("app", kind, ent)
         self.app._sendIq(ent, ok if hs else None, err if he else None)
         return rid
@@ -366,8 +376,8 @@ class Rig(object):
         del self.log[:]
         ev = []
         if op[0] in ("app", "lib"):
-            rid = self.app_request(op[1], bool(op[2]), bool(op[3])) if op[0] == "app" \
-                else self.lib_request(op[1])
+            rid = self.app_request(op[1], bool(op[2]), bool(op[3]), *[int(x) for x in op[4:7]]) \
+                if op[0] == "app" else self.lib_request(op[1])
             ev.append(["issued", self.mid(rid)])
             for what, n in self.log:
                 ev.append(["sent", self.mid(n["id"])] if what == "down" and n.tag == "iq" else ["?", what])
@@ -394,6 +404,8 @@ class Rig(object):
                     ev.append(["libcb", "groupinfo", "success", self._req_mid(self.by_token.get(("msg", n["id"])))])
                 elif n.tag == "iq" and n["type"] == "result":
                     ev.append(["pong", self.mid(n["id"])])
+                elif n.tag == "iq":
+                    ev.append(["sent", self.mid(n["id"])])   # a request re-sent from inside a callback
                 else:
                     ev.append(["down", n.tag])
             elif what in ("iface", "top"):
